@@ -1,9 +1,230 @@
+import RsMatterVerif.Model.Cert
 import Driver.Util
-/-! Driver for C19: not built yet. -/
+/-! Driver for C19: parses the certificate records the harness minted real certificates from, runs
+`Model/Cert` on them (correspondence) and evaluates the declarative specification
+(`CaseValid` / `InstallValid` / `PathValid`) against the *implementation's* decision (oracle). -/
 namespace Driver.C19
+open Cert
 
-def run : IO UInt32 := do
-  IO.eprintln "C19: driver not built yet"
-  return 2
+def parseAttr (s : String) : Option Attr :=
+  match s.toList with
+  | [] => none
+  | k :: rest =>
+    match (String.ofList rest).toNat? with
+    | none => none
+    | some v =>
+      some (match k with
+        | 'n' => Attr.nodeId v
+        | 'c' => Attr.icaId v
+        | 'r' => Attr.rootCaId v
+        | 'f' => Attr.fabricId v
+        | 't' => Attr.cat v
+        | _ => Attr.other 1 v)
+
+def parseDN (s : String) : Option DN :=
+  if s = "-" ∨ s = "" then some [] else (s.splitOn ".").mapM parseAttr
+
+def optNat (s : String) : Option (Option Nat) :=
+  if s = "-" then some none else s.toNat?.map some
+
+structure Raw where
+  c : Cert
+  sg : Option Nat := none
+  fl : Bool := false
+  tb : Bool := false
+
+def emptyCert : Cert :=
+  { subject := [], issuer := [], notBefore := 1, notAfter := 0, bc := none, keyUsage := none,
+    eku := none, skid := none, akid := none, critFuture := false, pubKey := 0, sigBy := none }
+
+def parseField (r : Raw) (f : String) : Option Raw :=
+  match f.splitOn "=" with
+  | [k, v] =>
+    match k with
+    | "s" => (parseDN v).map fun d => { r with c := { r.c with subject := d } }
+    | "i" => (parseDN v).map fun d => { r with c := { r.c with issuer := d } }
+    | "nb" => v.toNat?.map fun n => { r with c := { r.c with notBefore := n } }
+    | "na" => v.toNat?.map fun n => { r with c := { r.c with notAfter := n } }
+    | "bc" =>
+      if v = "-" then some { r with c := { r.c with bc := none } }
+      else
+        match v.splitOn "/" with
+        | [a, b] => (optNat b).map fun p => { r with c := { r.c with bc := some (a = "T", p) } }
+        | _ => none
+    | "ku" => (optNat v).map fun n => { r with c := { r.c with keyUsage := n } }
+    | "eku" =>
+      if v = "-" then some { r with c := { r.c with eku := none } }
+      else if v = "e" then some { r with c := { r.c with eku := some [] } }
+      else ((v.splitOn ".").mapM String.toNat?).map fun l => { r with c := { r.c with eku := some l } }
+    | "sk" => (optNat v).map fun n => { r with c := { r.c with skid := n } }
+    | "ak" => (optNat v).map fun n => { r with c := { r.c with akid := n } }
+    | "cr" => v.toNat?.map fun n => { r with c := { r.c with critFuture := n == 1 } }
+    | "pk" => v.toNat?.map fun n => { r with c := { r.c with pubKey := n } }
+    | "sg" => (optNat v).map fun n => { r with sg := n }
+    | "fl" => some { r with fl := true }
+    | "tb" => some { r with tb := v = "1" }
+    | _ => none
+  | _ => none
+
+/-- a record token; the symbolic signer: a flipped signature bit or a TBS altered after signing
+verifies under no key, `sg=-` is a signature by the reserved key 5 -/
+def parseRec (s : String) : Option Cert :=
+  match (s.splitOn ",").foldlM parseField ({ c := emptyCert } : Raw) with
+  | none => none
+  | some r =>
+    let sig : Option Nat := if r.fl ∨ r.tb then none else some (r.sg.getD 5)
+    some { r.c with sigBy := sig }
+
+def parseTime (s : String) : Option Time :=
+  match s.toList with
+  | 'r' :: rest => (String.ofList rest).toNat?.map Time.reliable
+  | 'l' :: rest => (String.ofList rest).toNat?.map Time.lastKnown
+  | _ => none
+
+def kv (key : String) (toks : List String) : Option String :=
+  toks.findSome? fun t => if t.startsWith (key ++ "=") then some (t.drop (key.length + 1)).toString else none
+
+def optRec (s : String) : Option (Option Cert) :=
+  if s = "-" then some none else (parseRec s).map some
+
+def fmtCase : Except Err Nat → String
+  | .ok n => s!"ok node={n}"
+  | .error e => e.name
+
+def fmtUnit : Except Err Unit → String
+  | .ok () => "ok"
+  | .error e => e.name
+
+def fmtInstall : Except Err (Nat × Nat) → String
+  | .ok (f, n) => s!"ok fab={f} node={n}"
+  | .error e => e.name
+
+def parseFabs (s : String) : Option (List FabricEntry) :=
+  if s = "-" then some []
+  else (s.splitOn "/").mapM fun e =>
+    match e.splitOn ":" with
+    | [a, b] => match a.toNat?, b.toNat? with
+      | some f, some k => some { fabricId := f, rootPubKey := k }
+      | _, _ => none
+    | _ => none
+
+/-- the records `cert/gen.rs` produces for these parameters (what its `write_tbs_certificate` /
+`write_extensions` emit per certificate type) -/
+def genRoot (fab rca kr nb na : Nat) : Cert :=
+  { subject := [.rootCaId rca, .fabricId fab], issuer := [.rootCaId rca, .fabricId fab],
+    notBefore := nb, notAfter := na, bc := some (true, none), keyUsage := some 0x60, eku := none,
+    skid := some kr, akid := some kr, critFuture := false, pubKey := kr, sigBy := some kr }
+
+def genIcac (fab rca ica kr ki nb na : Nat) : Cert :=
+  { subject := [.icaId ica, .fabricId fab], issuer := [.rootCaId rca, .fabricId fab],
+    notBefore := nb, notAfter := na, bc := some (true, some 0), keyUsage := some 0x60, eku := none,
+    skid := some ki, akid := some kr, critFuture := false, pubKey := ki, sigBy := some kr }
+
+def genNoc (fab node : Nat) (cats : List Nat) (issuer : DN) (ik kn nb na : Nat) : Cert :=
+  { subject := [.nodeId node, .fabricId fab] ++ cats.map Attr.cat, issuer := issuer,
+    notBefore := nb, notAfter := na, bc := some (false, none), keyUsage := some 1, eku := some [1, 2],
+    skid := some kn, akid := some ik, critFuture := false, pubKey := kn, sigBy := some ik }
+
+def accepted (out : String) : Bool := out.startsWith "ok"
+
+def verdict (model out : String) (ora : Option String) : String :=
+  match ora with
+  | some why => s!"ORA {why}"
+  | none => if model = out then "ok" else s!"DIS {model}"
+
+def step (st : Unit) (line : String) : Unit × String :=
+  let (op, out) := splitArrow line
+  let toks := words op
+  match toks with
+  | "verify" :: ts :: recs :: _ =>
+    match parseTime ts, (recs.splitOn ";").mapM parseRec with
+    | some t, some p =>
+      let model := fmtUnit (verifyChain t p)
+      let want := decide (PathValid t p)
+      let ora := if want = accepted out then none
+        else some s!"spec={if want then "valid" else "invalid"} impl={out}"
+      (st, verdict model out ora)
+    | _, _ => (st, "BAD verify")
+  | _ =>
+    match toks with
+    | kind :: ts :: rest =>
+      match parseTime ts with
+      | none => (st, "BAD time")
+      | some t =>
+        if kind = "addnoc" then
+          match (kv "root" rest).bind parseRec, (kv "noc" rest).bind parseRec,
+                (kv "icac" rest).bind optRec, (kv "fabs" rest).bind parseFabs with
+          | some root, some noc, some icac, some fabs =>
+            if addTrustedRoot t root = false then
+              (st, verdict "root:InvalidCommand" out none)
+            else
+              let model := fmtInstall (addNoc t root 9 fabs noc icac)
+              let want := decide (InstallValid t root 9 fabs noc icac)
+              let ora :=
+                if out.startsWith "root:" then none
+                else if want ≠ accepted out then
+                  some s!"spec={if want then "valid" else "invalid"} impl={out}"
+                else if accepted out ∧
+                    out ≠ s!"ok fab={(fabricIdOf noc.subject).getD 0} node={(nodeIdOf noc.subject).getD 0}" then
+                  some s!"installed identity differs from the certificate's: {out}"
+                else none
+              (st, verdict model out ora)
+          | _, _, _, _ => (st, "BAD addnoc")
+        else if kind = "genrs" then
+          let num (k : String) (d : Nat) : Nat := ((kv k rest).bind String.toNat?).getD d
+          let fab := num "fab" 1
+          let node := num "node" 1
+          let rca := num "rca" 1
+          let nb := num "nb" 1
+          let na := num "na" 0
+          let ica : Option Nat := (kv "ica" rest).bind String.toNat?
+          let cats : List Nat := match kv "cats" rest with
+            | some c => if c = "-" then [] else (c.splitOn ".").filterMap String.toNat?
+            | none => []
+          let keys : List Nat := match kv "keys" rest with
+            | some k => (k.splitOn "/").filterMap String.toNat?
+            | none => [0, 1, 2]
+          match keys with
+          | [kr, ki, kn] =>
+            let root := genRoot fab rca kr nb na
+            let icac := ica.map fun id => genIcac fab rca id kr ki nb na
+            let noc := match ica with
+              | some id => genNoc fab node cats [.icaId id, .fabricId fab] ki kn nb na
+              | none => genNoc fab node cats [.rootCaId rca, .fabricId fab] kr kn nb na
+            let fv : FabricView := { fabricId := fab, root := root }
+            let model := "same " ++ fmtCase (caseAccept t fv noc icac)
+            let want := decide (CaseValid t fv noc icac)
+            let ora :=
+              if ¬ out.startsWith "same " then some s!"record-minted bytes differ from cert/gen.rs: {out}"
+              else if want ≠ accepted (out.drop 5).toString then
+                some s!"spec={if want then "valid" else "invalid"} impl={out}"
+              else none
+            (st, verdict model out ora)
+          | _ => (st, "BAD keys")
+        else (st, "BAD op")
+    | _ => (st, "BAD op")
+
+def step' (st : Unit) (line : String) : Unit × String :=
+  let (op, out) := splitArrow line
+  let toks := words op
+  match toks with
+  | "case" :: _ => (st, "case")
+  | "cval" :: ts :: rest =>
+    match parseTime ts, (kv "fab" rest).bind String.toNat?, (kv "root" rest).bind parseRec,
+          (kv "noc" rest).bind parseRec, (kv "icac" rest).bind optRec with
+    | some t, some fab, some root, some noc, some icac =>
+      let fv : FabricView := { fabricId := fab, root := root }
+      let model := fmtCase (caseAccept t fv noc icac)
+      let want := decide (CaseValid t fv noc icac)
+      let ora :=
+        if want ≠ accepted out then some s!"spec={if want then "valid" else "invalid"} impl={out}"
+        else if accepted out ∧ out ≠ s!"ok node={(nodeIdOf noc.subject).getD 0}" then
+          some s!"admitted node id differs from the certificate's: {out}"
+        else none
+      (st, verdict model out ora)
+    | _, _, _, _, _ => (st, "BAD cval")
+  | _ => step st line
+
+def run : IO UInt32 := Driver.runLoop () step'
 
 end Driver.C19
